@@ -34,7 +34,8 @@ SHORT = {'method_context_created': 'created', 'method_call': 'call', 'method_ret
 INJECTIONS = ['success', 'malformed', 'bad_envelope', 'unknown_method', 'invalid_argument',
               'call_listener_fault@app', 'call_listener_exc@app', 'call_listener_fault@service',
               'call_listener_exc@method', 'return_listener_fault@app', 'return_listener_exc@service',
-              'function_fault', 'function_exc', 'unserialisable_return', 'genfunction_fault', 'genfunction_exc']
+              'function_fault', 'function_exc', 'unserialisable_return', 'genfunction_fault', 'genfunction_exc',
+              'genfunction_late_fault', 'genfunction_late_exc']
 LAYOUTS = ('app_only', 'all_levels', 'duplicates', 'diamond', 'late')
 INHERITED = ('service_base', 'service_grand', 'service_base2')
 
@@ -129,8 +130,10 @@ def build(kind, layout, injection, trace):
     def body_gen(ctx, n):
         # a generator function: its body runs when the transport asks for the first item
         trace.add('USER', 'enter', None)
+        if 'late' in inj:
+            yield n     # ... or fails after the first item, while the response is being written
         trace.add('USER', 'raise', None)
-        if inj == 'genfunction_fault':
+        if inj.endswith('_fault'):
             raise Fault('Client.FromFunction', 'f fault')
         raise Boom('f exception')
         yield n
@@ -280,7 +283,9 @@ def judge(kind, driver, layout, injection, trace, fault_sent, escaped):
             rd, rs, ed, es = pos('return_document'), pos('return_string'), pos('exception_document'), pos('exception_string')
             if fault_sent:
                 if rd or rs:
-                    if inj != 'unserialisable_return':
+                    # (a generator that fails after its first item: a lazily serialising protocol has by then announced the
+                    #  return document it was writing)
+                    if inj != 'unserialisable_return' and not (inj.startswith('genfunction_late') and not rs):
                         V.append(('return_doc_events_on_fault', '%s listener %d: return document/string events although a fault was sent' % (level, lid)))
                 if not ed or not es or ed[0] > es[0]:
                     V.append(('exception_doc_string_pair', '%s listener %d: exception_document %r exception_string %r' % (level, lid, ed, es)))
@@ -329,6 +334,9 @@ def run_case(R, kind, driver, layout, injection):
     app = build(kind, layout, injection, trace)
     if injection.startswith('genfunction') and driver != 'wsgi':
         R.skip('generator functions are consumed by the transport; judged through WSGI only')
+        return
+    if injection.startswith('genfunction_late') and kind == 'httprpc':
+        R.skip('HttpRpc as output protocol only serialises primitives: the response fails before the generator does')
         return
     if injection == 'unserialisable_return' and kind not in ('soap11', 'soap12', 'xml'):
         R.skip('unserialisable return: only the eagerly serialising XML protocols (statement)')
